@@ -16,6 +16,9 @@ for d in sorted(glob.glob(os.path.join(V, 'seeded', '*-m*'))):
                        + (' (' + ', '.join(c.get('broken', [])[:3]) + ')' if c.get('broken') else ''))
         else:
             how.append(f'{p}: not caught')
+    if meta.get('superseded'):
+        rows.append((sid, meta['property'], title, 'superseded', '-', meta['superseded'][:160]))
+        continue
     rows.append((sid, meta['property'], title, 'yes' if res.get('confirmed') else ('?' if not res else 'NO'),
                  'CAUGHT' if res.get('caught') else ('-' if not res else 'MISSED'), '; '.join(how)))
 with open(os.path.join(V, 'seeded', 'SUMMARY.md'), 'w') as f:
